@@ -61,6 +61,48 @@ _MODULE_NAMES = {"np", "numpy", "math", "operator", "pandas", "pd", "scipy", "sp
                  "expit", "logit", "isinstance", "tuple", "list", "sorted"}
 
 
+def record_fields(repo, mod, name):
+    """ordered field names of a repository class that is a plain record: a typing.NamedTuple subclass or a @dataclass whose body
+    declares annotated fields (no __init__/__new__/__post_init__ of its own); None otherwise"""
+    cq = repo.chase(mod, name)
+    cn = repo.classes.get(cq) if cq else None
+    if cn is None:
+        return None
+    bases = [U(b) for b in cn.bases]
+    decos = [U(d).split("(")[0] for d in cn.decorator_list]
+    is_nt = any(b in ("NamedTuple", "typing.NamedTuple") for b in bases)
+    is_dc = any(d in ("dataclass", "dataclasses.dataclass") for d in decos)
+    if not (is_nt or is_dc) or (is_nt and len(bases) != 1) or (is_dc and bases):
+        return None
+    fields = []
+    for st in cn.body:
+        if isinstance(st, ast.AnnAssign) and isinstance(st.target, ast.Name):
+            if st.value is not None:
+                return None          # defaults: positions of omitted arguments would have to be resolved
+            fields.append(st.target.id)
+        elif isinstance(st, (ast.FunctionDef,)) and st.name in ("__init__", "__new__", "__post_init__", "__getattribute__", "__getattr__"):
+            return None
+    return fields or None
+
+
+def record_value(repo, mod, call, field):
+    """the argument a record construction K(a, b, c=..) binds to `field`, or None"""
+    if not (isinstance(call, ast.Call) and isinstance(call.func, ast.Name)):
+        return None
+    fields = record_fields(repo, mod, call.func.id)
+    if fields is None or field not in fields or any(isinstance(a, ast.Starred) for a in call.args) or any(k.arg is None for k in call.keywords):
+        return None
+    if len(call.args) + len(call.keywords) != len(fields):
+        return None
+    i = fields.index(field)
+    if i < len(call.args):
+        return call.args[i]
+    for k in call.keywords:
+        if k.arg == field:
+            return k.value
+    return None
+
+
 def _table(repo, f, it):
     """the constant table an iterable expression denotes, or None"""
     v = None
@@ -101,7 +143,15 @@ def _table(repo, f, it):
                 return False
             # a module-level name of the table's module, visible unshadowed in the consuming function of the same module
             return name not in local and (name in _MODULE_NAMES or repo.chase(f.mod, name) is not None)
-        if all(_const(x, free_ok) for x in v.elts):
+        def row_ok(x):
+            if _const(x, free_ok):
+                return True
+            # a row that constructs a plain record (NamedTuple / dataclass of the repository) from constants
+            if same_mod and isinstance(x, ast.Call) and isinstance(x.func, ast.Name) and record_fields(repo, f.mod, x.func.id) is not None \
+                    and not any(isinstance(a, ast.Starred) for a in x.args) and all(k.arg is not None for k in x.keywords):
+                return all(_const(a, free_ok) for a in x.args) and all(_const(k.value, free_ok) for k in x.keywords)
+            return False
+        if all(row_ok(x) for x in v.elts):
             return v.elts
     return None
 
